@@ -28,11 +28,14 @@
 (*   ts    conn: transfers the connection activity is attributed to        *)
 (*   amb   conn: TRUE when it could only be attributed to the peer: it is  *)
 (*         on behalf of a quiet transfer only if ALL of ts are quiet       *)
+(*   told  <<t, f>> pairs: the peer has told field f (remQ | piq) of t and  *)
+(*         the client has not taken it over yet                            *)
 (*   nT    number of negotiation tasks seen so far (ids are 1..nT in       *)
 (*         creation order)                                                 *)
 (*   s     per transfer (padded to Len = Cardinality(T)):                  *)
-(*         [present, rq, tt, lrq, ltt, f]  slots (0 = empty), ids of live  *)
-(*         tasks per kind, field snapshot                                  *)
+(*         [present, rq, tt, lrq, ltt, loth, f]  slots (0 = empty), ids of *)
+(*         live tasks per kind (loth: any other task found working for the *)
+(*         transfer, whatever its name), field snapshot                    *)
 (***************************************************************************)
 EXTENDS TransferTasks, Json, IOUtils
 
@@ -53,6 +56,8 @@ TaskOf(s, n) ==
        THEN [t |-> CHOOSE t \in T : k \in Range(s[t].lrq), kind |-> "rq", pc |-> "live", canc |-> FALSE]
      ELSE IF \E t \in T : k \in Range(s[t].ltt)
        THEN [t |-> CHOOSE t \in T : k \in Range(s[t].ltt), kind |-> "init", pc |-> "live", canc |-> FALSE]
+     ELSE IF \E t \in T : k \in Range(s[t].loth)
+       THEN [t |-> CHOOSE t \in T : k \in Range(s[t].loth), kind |-> "oth", pc |-> "live", canc |-> FALSE]
      ELSE IF k <= n THEN [t |-> 0, kind |-> "none", pc |-> "ended", canc |-> FALSE]
      ELSE NoTask]
 
@@ -86,6 +91,10 @@ TInit ==
   /\ cnt = [cyc |-> 0, ops |-> 0, env |-> 0, req |-> 0, off |-> 0]
 
 IsEv(e) == l <= Len(Tr) /\ Rec.ev = e
+\* "the peer is telling field f of t" lasts from the stimulus record that sends the frame to the first record in
+\* which the client has taken the value over (its reader loop may be held up behind an earlier frame whose handler
+\* waits for a state lock): every record in that span carries <<t, f>> in told
+Marks == {Told(Rec.told[i][1], Rec.told[i][2]) : i \in 1..Len(Rec.told)}
 Consume == l' = l + 1 /\ UNCHANGED tid
 
 \* the user calls abort / pause / remove / queue on t: what happens to t during the call is the user's own doing,
@@ -96,7 +105,7 @@ TCall ==
   /\ op' = [op EXCEPT ![Rec.t] = [o |-> Rec.o, pc |-> "await", ok |-> FALSE, waits |-> {quiet[Rec.t]}]]
   /\ quiet' = [quiet EXCEPT ![Rec.t] = 0]
   /\ cnt' = IF Rec.o = "queue" THEN cnt ELSE [cnt EXCEPT !.ops = @ + 1]
-  /\ acted' = {}
+  /\ acted' = Marks
   /\ Bind(Rec) /\ Consume
 
 \* the call returns.  "ok": performed (abort -> ABORTED, pause -> PAUSED, remove -> no longer in the list,
@@ -117,7 +126,7 @@ TRet ==
        THEN /\ quiet' = [quiet EXCEPT ![Rec.t] = IF Rec.val = "ok" THEN 0 ELSE CHOOSE n \in op[Rec.t].waits : TRUE]
             /\ op' = [op EXCEPT ![Rec.t] = IdleOp]
        ELSE Returned(Rec.t, Rec.o, Rec.val = "ok", cnt.ops)
-  /\ acted' = {}
+  /\ acted' = Marks
   /\ UNCHANGED cnt
   /\ Bind(Rec) /\ Consume
 
@@ -125,7 +134,7 @@ TRet ==
 \* when the ready queue was empty again
 TStim ==
   /\ IsEv("stim")
-  /\ acted' = {}
+  /\ acted' = Marks
   /\ UNCHANGED <<op, quiet, cnt>>
   /\ Bind(Rec) /\ Consume
 
@@ -133,7 +142,7 @@ TStim ==
 \* PeerTransferReply allowing the transfer, PeerUploadFailed, ticket / offset on a file connection)
 TMsg ==
   /\ IsEv("msg") /\ Rec.t \in T
-  /\ acted' = {Rec.t}
+  /\ acted' = {Rec.t} \cup Marks
   /\ UNCHANGED <<op, quiet, cnt>>
   /\ Bind(Rec) /\ Consume
 
@@ -141,14 +150,14 @@ TMsg ==
 TConn ==
   /\ IsEv("conn")
   /\ LET ts == Range(Rec.ts) \cap T IN
-       acted' = IF Rec.amb THEN (IF \A t \in ts : quiet[t] # 0 THEN ts ELSE {}) ELSE ts
+       acted' = (IF Rec.amb THEN (IF \A t \in ts : quiet[t] # 0 THEN ts ELSE {}) ELSE ts) \cup Marks
   /\ UNCHANGED <<op, quiet, cnt>>
   /\ Bind(Rec) /\ Consume
 
 \* a state listener was told / virtual time passed: only the projection is taken
 TObserve ==
   /\ IsEv("notify") \/ IsEv("tick")
-  /\ acted' = {}
+  /\ acted' = Marks
   /\ UNCHANGED <<op, quiet, cnt>>
   /\ Bind(Rec) /\ Consume
 
